@@ -148,6 +148,65 @@ func (s *PrecompileTestSuite) spRun(sc spScenario) string {
 	return ""
 }
 
+// spRunHelperRevert: the signer's contract A (here: the signer itself, already dirty because the transaction carried value) calls
+// a helper H with value 5 and catches its failure; H calls a read-only method of the precompile (whose Run flushes the StateDB into
+// the store) and then reverts. C05 / C02: the reverted frame must leave no trace and the supply must not move.
+func (s *PrecompileTestSuite) spRunHelperRevert() string {
+	s.SetupTest()
+	origin := s.address
+	helper := utiltx.GenerateAddress()
+	other := utiltx.GenerateAddress()
+	baseFee := s.app.FeeMarketKeeper.GetBaseFee(s.ctx)
+	contract := vm.NewPrecompile(vm.AccountRef(helper), s.precompile, big.NewInt(0), 1000000)
+	contractAddr := contract.Address()
+	input, err := s.precompile.Pack(staking.DelegationMethod, origin, s.validators[0].GetOperator().String())
+	s.Require().NoError(err)
+	contract.Input = input
+	txArgs := evmtypes.EvmTxArgs{ChainID: s.app.EvmKeeper.ChainID(), Nonce: 0, To: &contractAddr, GasLimit: 1000000,
+		GasPrice: app.MinGasPrices.BigInt(), GasFeeCap: baseFee, GasTipCap: big.NewInt(1), Accesses: &ethtypes.AccessList{}}
+	msgEthereumTx := evmtypes.NewTx(&txArgs)
+	msgEthereumTx.From = origin.String()
+	s.Require().NoError(msgEthereumTx.Sign(s.ethSigner, s.signer))
+	cfg, err := s.app.EvmKeeper.EVMConfig(s.ctx, s.ctx.BlockHeader().ProposerAddress, s.app.EvmKeeper.ChainID())
+	s.Require().NoError(err)
+	msg, err := msgEthereumTx.AsMessage(s.ethSigner, baseFee)
+	s.Require().NoError(err)
+	evm := s.app.EvmKeeper.NewEVM(s.ctx, msg, cfg, nil, s.stateDB)
+	params := s.app.EvmKeeper.GetParams(s.ctx)
+	active := params.GetActivePrecompilesAddrs()
+	pm := s.app.EvmKeeper.Precompiles(active...)
+	s.Require().NoError(vm.ValidatePrecompiles(pm, active))
+	evm.WithPrecompiles(pm, active)
+	bal := func(a common.Address) *big.Int {
+		return s.app.BankKeeper.GetBalance(s.ctx, a.Bytes(), utils.BaseDenom).Amount.BigInt()
+	}
+	supply0 := s.app.BankKeeper.GetSupply(s.ctx, utils.BaseDenom).Amount.BigInt()
+	o0, h0 := bal(origin), bal(helper)
+	// outer frame: the transaction carries value 1 to some account (the signer is journal-dirty from here on)
+	s.stateDB.SubBalance(origin, big.NewInt(1))
+	s.stateDB.AddBalance(other, big.NewInt(1))
+	// inner frame: call to the helper with value 5
+	snap := s.stateDB.Snapshot()
+	s.stateDB.SubBalance(origin, big.NewInt(5))
+	s.stateDB.AddBalance(helper, big.NewInt(5))
+	if _, err := s.precompile.Run(evm, contract, true); err != nil {
+		return "scenario: precompile query failed: " + err.Error()
+	}
+	s.stateDB.RevertToSnapshot(snap) // the helper reverts; its caller catches the failure
+	if err := s.stateDB.Commit(); err != nil {
+		return "scenario: commit failed: " + err.Error()
+	}
+	supply1 := s.app.BankKeeper.GetSupply(s.ctx, utils.BaseDenom).Amount.BigInt()
+	if bal(helper).Cmp(h0) != 0 {
+		return fmt.Sprintf("the value transfer made inside the reverted frame persists: helper %s -> %s, signer %s -> %s, total supply moved by %s",
+			h0, bal(helper), o0, bal(origin), new(big.Int).Sub(supply1, supply0))
+	}
+	if supply0.Cmp(supply1) != 0 {
+		return fmt.Sprintf("total supply of the native coin moved by %s in one EVM transaction", new(big.Int).Sub(supply1, supply0))
+	}
+	return ""
+}
+
 func (s *PrecompileTestSuite) spShares(del common.Address) string {
 	d, found := s.app.StakingKeeper.GetDelegation(s.ctx, del.Bytes(), s.validators[0].GetOperator())
 	if !found {
@@ -204,6 +263,28 @@ func (s *PrecompileTestSuite) TestVerifReplayStakingPrecompile() {
 		out.Verdict, out.Input, out.Detail = hit.Verdict, hit.Input, hit.Detail
 		firstKnown = nil
 		break
+	}
+	// the flush-then-revert history (tests C05; its effect on the supply makes it a C02 history too)
+	if out.Verdict != "REPRODUCED" || out.KnownID != "" {
+		const name = "a helper called with value 5 queries the precompile and reverts; its caller catches the failure"
+		out.Cases++
+		bad := s.spRunHelperRevert()
+		if bad == "" || strings.HasPrefix(bad, "scenario:") {
+			out.Results = append(out.Results, name+": "+map[bool]string{true: "holds", false: bad}[bad == ""])
+		} else {
+			out.Results = append(out.Results, name+": "+bad)
+			id := "F13-flush-revert"
+			hit := spOut{Verdict: "REPRODUCED", Input: map[string]string{"id": id, "name": name}, Detail: bad}
+			if known[id] || known[id+"@"+req.Property] {
+				hit.KnownID = id
+				if firstKnown == nil {
+					firstKnown = &hit
+				}
+			} else {
+				out.Verdict, out.Input, out.Detail, out.KnownID = hit.Verdict, hit.Input, hit.Detail, ""
+				firstKnown = nil
+			}
+		}
 	}
 	if firstKnown != nil {
 		out.Verdict, out.Input, out.Detail, out.KnownID = firstKnown.Verdict, firstKnown.Input, firstKnown.Detail, firstKnown.KnownID
